@@ -398,14 +398,7 @@ fn body(ctx: &Arc<Ctx>, sid: usize, r: &[Box<dyn RG + '_>], w: &mut [Box<dyn WG 
     }
     st.state.store(mix(old, acc), Ordering::SeqCst);
     match kind {
-        Some(FaultKind::Rendezvous) => {
-            let idx = dir.as_ref().unwrap().arg as usize;
-            let r = ctx.rdv.lock().unwrap()[idx].clone();
-            r.arrived.fetch_add(1, Ordering::SeqCst);
-            let need = r.need.load(Ordering::SeqCst);
-            let a = r.arrived.clone();
-            detsim::block_until("rendezvous", move || a.load(Ordering::SeqCst) >= need);
-        }
+        Some(FaultKind::Rendezvous) => rendezvous(ctx, dir.as_ref().unwrap().arg as usize),
         Some(FaultKind::ExtraSteps) => {
             for _ in 0..dir.as_ref().unwrap().arg {
                 ctx.point(sid, PH_IN_WINDOW);
@@ -425,6 +418,15 @@ fn body(ctx: &Arc<Ctx>, sid: usize, r: &[Box<dyn RG + '_>], w: &mut [Box<dyn WG 
         _ => {}
     }
     ctx.point(sid, PH_IN_WINDOW);
+}
+
+/// Wait inside `run` until every member of the rendezvous group has arrived (C11).
+pub fn rendezvous(ctx: &Ctx, idx: usize) {
+    let r = ctx.rdv.lock().unwrap()[idx].clone();
+    r.arrived.fetch_add(1, Ordering::SeqCst);
+    let need = r.need.load(Ordering::SeqCst);
+    let a = r.arrived.clone();
+    detsim::block_until("rendezvous", move || a.load(Ordering::SeqCst) >= need);
 }
 
 impl<'a> System<'a> for DynSys {
@@ -670,6 +672,9 @@ impl<'a, 'b, 'c, F: Fam> BatchController<'a, 'b, 'c> for Ctl<F> {
         if kind == Some(FaultKind::PanicBefore) {
             panic!("{}", ctx.payload(sid, "ctl-before"));
         }
+        if kind == Some(FaultKind::Rendezvous) {
+            rendezvous(&ctx, dir.as_ref().unwrap().arg as usize);
+        }
         {
             let mut d: F::D<'c> = world.system_data();
             ctx.emit(Ev::CtlFetched, sid, 0);
@@ -743,6 +748,9 @@ impl<'c, F: Fam> MultiDispatchController<'c> for PlanCtl<F> {
         ctx.emit(Ev::CtlReleased, sid, 0);
         let dir = ctx.take_directive(sid);
         if let Some(d) = dir {
+            if d.kind == FaultKind::Rendezvous && !ctx.identify() {
+                rendezvous(&ctx, d.arg as usize);
+            }
             if matches!(d.kind, FaultKind::PanicBefore | FaultKind::PanicMid | FaultKind::PanicAfter) && !ctx.identify() {
                 st.in_window.store(false, Ordering::SeqCst);
                 ctx.emit(Ev::ExitPanic, sid, 0);
